@@ -38,9 +38,9 @@ def generate(rng, tier, stats):
         nn = rng.choice([2, 4, 6, 8, 10, 12])
         freq = rng.choice([0, 1, 10, 10, 60])
         interval = rng.choice([0, 1, 30, 60, 60, 3600])
-        inc = rng.choice([1, 1, 2, 5, "100%", "50%", "1%", "34%", 0])
+        inc = rng.choice([1, 1, 2, 5, "100%", "50%", "1%", "34%", "25%", "10%", "34%", 0])
         mp = rng.choice([250, 250, 1, 2, 3])
-        force = {"scenario": "active", "n": nn, "classes": CLASSES, "no_faults": rng.random() < 0.6, "fault_rate": 0.8,
+        force = {"scenario": rng.choice(["active", "active", "active_with_canary"]), "n": nn, "classes": CLASSES, "no_faults": rng.random() < 0.6, "fault_rate": 0.8,
                  "open_gates": rng.random() < 0.6, "annotations": {},
                  "strategy": {"reconcileFrequency": freq, "slowStartIntervalDuration": interval, "slowStartAdditiveIncrease": inc,
                               "maxParallelPodCreation": mp, "maxUnavailable": rng.choice([1, 2, "50%"])}}
